@@ -210,9 +210,10 @@ class MergeEngine:
         )
 
         if o.offset != "/":
-            # wrap the results of new_cset to pass through an offset generator
-            o.cset_sources["old_cset"] = post_curry(
-                o.generate_offset_cset, o.cset_sources["old_cset"]
+            # the offset has to be in place before the contents are looked up
+            # on the livefs, as it is for a replace.
+            o.cset_sources["raw_old_cset"] = post_curry(
+                o.generate_offset_cset, o.cset_sources["raw_old_cset"]
             )
 
         o.old = pkg
